@@ -738,6 +738,108 @@ for _i in range(1, 21):
     rule(_p)(_make_sharedstate(_p))
 
 
+# ------------------------------------------------------------------------------------------------ rich comparisons are used as operators
+
+
+def explicit_comparison_dunders(ctx: Ctx, files: set[str] | None):
+    """Calls that spell a rich comparison as a method (`x.__eq__(y)`): unlike the operator, the method may return NotImplemented,
+    which is truthy - `not self.__eq__(other)` is False for every foreign operand, so `!=` and `==` are both False.
+    `super().__eq__(...)` inside the same dunder is the one legitimate form."""
+    for f in sorted(set(ctx.M.func_of_node.values()), key=lambda x: x.qual):
+        if "_compatibility" in f.mod.rel or (files is not None and f.mod.rel not in files):
+            continue
+        nodes = ast.walk(f.node) if isinstance(f.node, ast.Lambda) else own_nodes(f.node)
+        for n in nodes:
+            if isinstance(n, ast.Compare) or isinstance(n, ast.Call) and isinstance(n.func, ast.Attribute) and n.func.attr in ("__eq__", "__ne__", "__lt__", "__le__", "__gt__", "__ge__"):
+                bad = isinstance(n, ast.Call) and not (isinstance(n.func.value, ast.Call) and unparse(n.func.value.func) == "super")
+                yield f, n, bad
+
+
+def _make_dunder(prop: str):
+    def r_dunder(ctx: Ctx) -> RuleResult:
+        rr = RuleResult(f"R{prop[1:]}.dunder", "rich comparisons are written with operators, never as explicit `.__eq__(...)` / `.__lt__(...)` calls (NotImplemented is truthy)", min_instances=0)
+        if "dunder_total" not in ctx.cache:
+            ctx.cache["dunder_total"] = sum(1 for _ in explicit_comparison_dunders(ctx, None))
+        if ctx.cache["dunder_total"] < 500:
+            from ..model import AnalysisError
+
+            raise AnalysisError(f"comparison enumerator finds only {ctx.cache['dunder_total']} comparisons in the whole package")
+        for f, n, bad in explicit_comparison_dunders(ctx, anchor_scope(ctx, prop)):
+            rr.inst(nontrivial=False)
+            if bad:
+                rr.fail(f.qual, f"`{unparse(n)[:70]}` calls the comparison method directly: for an operand of another type it returns NotImplemented, which is truthy", ctx.loc(f, n))
+            else:
+                rr.ok()
+        return rr
+
+    r_dunder.__name__ = f"r{prop[1:]}_dunder_calls"
+    return r_dunder
+
+
+for _i in range(1, 21):
+    _p = f"C{_i:02d}"
+    rule(_p)(_make_dunder(_p))
+
+
+# ------------------------------------------------------------------------------------------------ values copy the sequences they are given
+
+
+def raw_sequence_stores(ctx: Ctx, files: set[str] | None):
+    """Constructors of classes that define __eq__ / __hash__ (values): a parameter annotated as a Sequence / Iterable / list /
+    Mapping / Collection stored as it is.  The value then shares the caller's object: it changes (and its hash with it) when the
+    caller's list does, and a list never equals the tuple a decoded twin holds."""
+    import re
+
+    M = ctx.M
+    for lst in M.classes.values():
+        for c in lst:
+            if not c.mod.rel.startswith("pyoda_time/") or "_compatibility" in c.mod.rel or (files is not None and c.mod.rel not in files):
+                continue
+            if "__hash__" not in c.methods and "__eq__" not in c.methods:
+                continue
+            for g in c.methods.values():
+                if isinstance(g.node, ast.Lambda) or not (g.name in ("__init__", "_ctor") or g.name.endswith("__ctor")):
+                    continue
+                ann = {a.arg: (unparse(a.annotation) if a.annotation is not None else "") for a in g.node.args.args + g.node.args.kwonlyargs}
+                for n in own_nodes(g.node):
+                    if isinstance(n, (ast.Assign, ast.AnnAssign)) and n.value is not None:
+                        t = n.targets[0] if isinstance(n, ast.Assign) else n.target
+                        if not isinstance(t, ast.Attribute):
+                            continue
+                        v = n.value
+                        if isinstance(v, ast.Call) and "_check_not_null" in unparse(v.func) and v.args:
+                            v = v.args[0]
+                        seqlike = isinstance(v, ast.Name) and bool(re.search(r"Sequence|Iterable|list\[|List\[|Mapping|dict\[|Collection", ann.get(v.id, "")))
+                        if isinstance(v, ast.Name) and v.id in ann:
+                            yield c, g, n, seqlike
+
+
+def _make_rawseq(prop: str):
+    def r_rawseq(ctx: Ctx) -> RuleResult:
+        rr = RuleResult(f"R{prop[1:]}.rawseq", "constructors of value classes (with __eq__ / __hash__) never store a Sequence / Iterable / Mapping argument as it is: they copy it into an immutable container", min_instances=0)
+        if "rawseq_total" not in ctx.cache:
+            ctx.cache["rawseq_total"] = sum(1 for _ in raw_sequence_stores(ctx, None))
+        if ctx.cache["rawseq_total"] < 40:
+            from ..model import AnalysisError
+
+            raise AnalysisError(f"constructor-store enumerator finds only {ctx.cache['rawseq_total']} parameter stores in value classes")
+        for c, g, n, bad in raw_sequence_stores(ctx, anchor_scope(ctx, prop)):
+            rr.inst(nontrivial=False)
+            if bad:
+                rr.fail(g.qual, f"`{unparse(n)[:80]}` keeps the caller's sequence: the value changes (and its hash) when the caller's object does, and never equals a twin holding a tuple", ctx.loc(g, n))
+            else:
+                rr.ok()
+        return rr
+
+    r_rawseq.__name__ = f"r{prop[1:]}_rawseq"
+    return r_rawseq
+
+
+for _i in range(1, 21):
+    _p = f"C{_i:02d}"
+    rule(_p)(_make_rawseq(_p))
+
+
 # ------------------------------------------------------------------------------------------------ rules shared between properties
 
 # A change made to break one property often does so through a mechanism whose home is a neighbouring property; the home rule is then
@@ -750,16 +852,16 @@ SHARED = {
     "C06": [("c04", "r04_8_queries_are_used"), ("c02", "r02_5_leap_decisions"), ("c13", "r13_2_zone_interval_cache"), ("c01", "r01_5_per_year_consistency")],
     "C18": [("c12", "r12_2_3_eq_hash_fields"), ("c09", "r09_12_months_between_is_checked_by_addition"), ("c13", "r13_12_packed_cache_words_are_unpacked")],
     "C17": [("c13", "r13_13_bucket_providers_build_fresh_buckets")],
-    "C12": [("c09", "r09_12_months_between_is_checked_by_addition")],
+    "C12": [("c09", "r09_12_months_between_is_checked_by_addition"), ("c13", "r13_4_publication")],
     "C16": [("c01", "r01_11_trusted_packings"), ("c10", "r10_14_borrow_and_carry_use_the_right_year"), ("c01", "r01_10_year_starts_vs_year_lengths"), ("c01", "r01_5_per_year_consistency")],
     "C09": [("c01", "r01_11_trusted_packings"), ("c10", "r10_14_borrow_and_carry_use_the_right_year"), ("c13", "r13_10_cache_slot_is_validated_for_its_own_key"), ("c13", "r13_12_packed_cache_words_are_unpacked")],
-    "C11": [("c03", "r03_11_trusted_instants"), ("c10", "r10_14_borrow_and_carry_use_the_right_year"), ("c13", "r13_2_zone_interval_cache"), ("c06", "r06_11_fixed_zone_table")],
+    "C11": [("c03", "r03_11_trusted_instants"), ("c10", "r10_14_borrow_and_carry_use_the_right_year"), ("c13", "r13_2_zone_interval_cache"), ("c06", "r06_11_fixed_zone_table"), ("c04", "r04_13_wall_offset_decides_local_time"), ("c03", "r03_16_unit_factories_split_exactly")],
     "C15": [("c03", "r03_11_trusted_instants"), ("c02", "r02_5_leap_decisions"), ("c03", "r03_15_duration_truncated_views"), ("c01", "r01_14_gregorian_fast_tables")],
     "C14": [("c03", "r03_14_tick_arithmetic")],
     "C07": [("c08", "r08_7_embedded_fields"), ("c17", "r17_8_variable_precision_predicates"), ("c08", "r08_10_field_set_tests"), ("c17", "r17_7_sign_predicates")],
     "C05": [("c01", "r01_cfp_calendar_free_productions"), ("c04", "r04_12_cache_periods_stay_in_range"), ("c13", "r13_2_zone_interval_cache")],
     "C10": [("c03", "r03_6_rounding_helpers_exact")],
-    "C13": [("c01", "r01_2_registry")],
+    "C13": [("c01", "r01_2_registry"), ("c19", "r19_2_lockset")],
     "C19": [("c13", "r13_2_zone_interval_cache")],
 }
 
